@@ -105,6 +105,7 @@ type shape struct {
 	// fixed witness: one leaf gets exactly this value
 	WitnessPath string `json:"witness_path,omitempty"`
 	WitnessVal  string `json:"witness_val,omitempty"` // hex
+	Repeat      int    `json:"repeat,omitempty"`       // the witness value is repeated this many times (huge scalars; monitored, not sent to the model)
 }
 
 // build constructs the configuration described by sh (deterministically).
@@ -160,7 +161,11 @@ func build(sh shape) (*config.Config, map[string]string) {
 		if sh.WitnessPath != "" && p == sh.WitnessPath && (len(idx) == 0 || idx[len(idx)-1] == 0) {
 			w, _ := hex.DecodeString(sh.WitnessVal)
 			mk := fmt.Sprintf("MK%04dQ", n)
-			s.SetString(strings.ReplaceAll(string(w), "@MK@", mk))
+			val := strings.ReplaceAll(string(w), "@MK@", mk)
+			if sh.Repeat > 1 {
+				val = strings.Repeat(val, sh.Repeat)
+			}
+			s.SetString(val)
 			markers[key] = mk
 			return
 		}
@@ -388,7 +393,7 @@ func main() {
 			c.Fail("original-changed", "the configuration differs from its twin after Redacted()/String()", sh)
 		}
 		// ---- cases.v ----
-		if nCases >= maxModelCases {
+		if nCases >= maxModelCases || sh.Repeat > 1 {
 			c.Count("model-comparison:skipped")
 			return
 		}
@@ -439,6 +444,9 @@ func main() {
 			}
 			run(sh)
 		}
+		// huge scalars (monitored only; last, so that the cases compared with the model keep their numbering)
+		run(shape{Mode: "witness-huge", Seed: 1100, Fill: 2, Hostile: 0, MaxList: 1, WitnessPath: "TLS.KeyPEM", WitnessVal: wv("@MK@ line of key material\n"), Repeat: 20000})
+		run(shape{Mode: "witness-huge", Seed: 1101, Fill: 2, Hostile: 0, MaxList: 1, WitnessPath: "Agent.DisplayName", WitnessVal: wv("x@MK@"), Repeat: 100000})
 	}
 
 	var sb strings.Builder
